@@ -72,7 +72,7 @@ def cases(rng, tier):
 		for mask in range(0, 2 ** (n - 1), 1 if tier == 'thorough' else 37):
 			allcuts.append(tuple(i + 1 for i in range(n - 1) if mask >> i & 1))
 		yield ('s', side, s, tuple(allcuts[:4096]))
-	n = 12000 if tier == 'thorough' else 700
+	n = 12000 if tier == 'thorough' else 1800
 	for _ in range(n):
 		side = rng.choice(('server', 'server', 'client'))
 		recs = wire.gen_pipeline(rng, side)
